@@ -54,6 +54,8 @@ def direct_effects(fn: FuncInfo) -> list[tuple[str, ast.AST]]:
         elif attr == "replace" and len(n.args) == 1 and not n.keywords and _looks_like_path(n.func.value):  # type: ignore[union-attr]
             out.append((FS_WRITE, n))
         elif name in ("shutil.rmtree", "os.remove", "os.unlink", "os.rmdir") or attr in ("unlink", "rmdir"):
+            if attr == "unlink" and isinstance(n.func.value, ast.Name) and _is_own_temp(fn, n.func.value.id):  # type: ignore[union-attr]
+                continue  # removing the temporary sibling this very function created is not a deletion of stored data
             out.append((FS_DELETE, n))
         elif name in ("json.load", "cloudpickle.load", "pickle.load", "os.listdir") or attr in ("read_text", "read_bytes", "is_file", "exists", "is_dir", "glob", "rglob", "iterdir", "stat"):
             out.append((FS_READ, n))
@@ -63,6 +65,15 @@ def direct_effects(fn: FuncInfo) -> list[tuple[str, ast.AST]]:
         elif name == "self.function" and fn.name == "reproduce":
             out.append((USER_CALL, n))
     return out
+
+
+def _is_own_temp(fn: FuncInfo, name: str) -> bool:
+    for n in walk_no_nested(fn.node):
+        if isinstance(n, ast.Assign) and any(isinstance(t, ast.Name) and t.id == name for t in n.targets):
+            src = ast.unparse(n.value)
+            if ".with_name(" in src or "mkstemp" in src or "NamedTemporaryFile" in src or ".with_suffix(" in src:
+                return True
+    return False
 
 
 def _looks_like_path(node: ast.AST) -> bool:
@@ -86,15 +97,21 @@ class Effects:
     def sources(self, effect: str) -> set[str]:
         return {q for q, d in self.direct.items() if any(e == effect for e, _ in d)}
 
-    def has(self, q: str, effect: str, *, skip_kinds: tuple[str, ...] = ()) -> bool:
-        return self.witness(q, effect, skip_kinds=skip_kinds) is not None
+    def has(self, q: str, effect: str, *, skip_kinds: tuple[str, ...] = (), modules: tuple[str, ...] | None = None) -> bool:
+        return self.witness(q, effect, skip_kinds=skip_kinds, modules=modules) is not None
 
-    def witness(self, q: str, effect: str, *, skip_kinds: tuple[str, ...] = ()) -> list[str] | None:
-        """Shortest call path from q to a function with a direct `effect` (None if there is none)."""
+    def witness(self, q: str, effect: str, *, skip_kinds: tuple[str, ...] = (), modules: tuple[str, ...] | None = None) -> list[str] | None:
+        """Shortest call path from q to a function with a direct `effect` (None if there is none).
+
+        `modules` restricts the functions whose direct effects count (module-name prefixes), e.g. to
+        tell writes into a run folder from the DiskCache creating its own directory.
+        """
         g = self.cg.g
         if skip_kinds:
             g = nx.subgraph_view(g, filter_edge=lambda a, b: self.cg.g.edges[a, b].get("kind") not in skip_kinds)
         srcs = self.sources(effect)
+        if modules is not None:
+            srcs = {s for s in srcs if self.prog.functions[s].module.name.startswith(modules)}
         if q in srcs:
             return [q]
         if q not in g:
